@@ -78,6 +78,9 @@ BUILTIN_FILTERS = [(":int", (0, 0)), (":float", (1, 1)), (":word", (2, 2)),
                    ("none", (6, 2))]
 
 
+BUILTIN_LIST = [[n, r, c] for n, (r, c) in BUILTIN_FILTERS]
+
+
 def hid(fun):
     for i, h in enumerate(HANDLERS):
         if h is fun:
@@ -253,9 +256,13 @@ def impl_views(app):
     """ordered, exactly as the introspection properties show them"""
     exc_id = {e: i for i, e in enumerate(EXCS)}
     static_id = {p: i for i, p in enumerate(STATIC)}
+    filters = [[n, REGEX_ID.get(rc[0], -1), CONV_ID.get(rc[1], -1)]
+               for n, rc in app.filters.items()]
+    if filters[:len(BUILTIN_LIST)] == BUILTIN_LIST:
+        # abbreviation of the untouched built-in entries (as enc_ftab)
+        filters = [None] + filters[len(BUILTIN_LIST):]
     return [
-        [[n, REGEX_ID.get(rc[0], -1), CONV_ID.get(rc[1], -1)]
-         for n, rc in app.filters.items()],
+        filters,
         [hid(f) for f in app.before],
         [hid(f) for f in app.after],
         _mt(app.defaults),
@@ -278,7 +285,10 @@ def views_as_map(views):
         for key, inner in tab:
             for b, h in inner:
                 out[(kind, key, b)] = h
-    filters = {n: (r, c) for n, r, c in views[0]}
+    flist = views[0]
+    if flist and flist[0] is None:
+        flist = BUILTIN_LIST + flist[1:]
+    filters = {n: (r, c) for n, r, c in flist}
     return out, filters, list(views[1]), list(views[2])
 
 
@@ -644,7 +654,8 @@ class Runner:
                     "raised": repr(ans.raised)})
 
     # -- one call sequence
-    def run(self, ops, tag, per_step, paths=None, fire=True, do_probe=True):
+    def run(self, ops, tag, per_step, paths=None, fire=True, do_probe=True,
+            coq=True):
         ctx = self.ctx
         app = self.fresh()
         self.ref = ref = Ref()
@@ -665,6 +676,16 @@ class Runner:
                     self.probe(app, ops, i, paths, fire)
                 if per_step:
                     steps.append([got, views])
+        if coq:
+            self.add_case(ops, tag, per_step, steps, outs, views)
+        eventful = any(o is not None for o in outs)
+        ctx.case((tag, ops), eventful,
+                 {"family": tag, "calls": [list(o) for o in ops],
+                  "outcomes": [repr(o) for o in outs]}
+                 if eventful and len(ops) > 2 else None)
+        ctx.count("seq:" + tag)
+
+    def add_case(self, ops, tag, per_step, steps, outs, views):
         coq_ops = clist(coq_op(o) for o in ops)
         if per_step:
             expected = steps
@@ -675,12 +696,6 @@ class Runner:
         # rendered here: core runs as __main__, its to_v would not recognise
         # the Exn class of the imported module
         self.cases.append((term, to_v(expected), (tag, ops)))
-        eventful = any(o is not None for o in outs)
-        ctx.case((tag, ops), eventful,
-                 {"family": tag, "calls": [list(o) for o in ops],
-                  "outcomes": [repr(o) for o in outs]}
-                 if eventful and len(ops) > 2 else None)
-        ctx.count("seq:" + tag)
 
 
 def run(ctx):
@@ -694,9 +709,14 @@ def run(ctx):
         paths, fire = FAMILY_PROBES[fam]
         depth = 3 if ctx.quick else FAMILY_DEPTH[fam]
         for length in range(1, depth + 1):
+            # depth 5: every sequence meets the reference registry (outcomes
+            # and views), a sample is probed / evaluated in Coq
+            part = 1.0 if length < 5 else 0.15
             for seq in itertools.product(pool, repeat=length):
                 ops = tuple(with_form(rng, o) for o in seq)
-                runner.run(ops, fam, False, paths, fire)
+                runner.run(ops, fam, False, paths, fire,
+                           do_probe=rng.random() < part,
+                           coq=rng.random() < part)
     t1 = time.time()
 
     # 2. the whole pool, exhaustively to depth 2 (probed on a sample)
@@ -710,7 +730,7 @@ def run(ctx):
     t2 = time.time()
 
     # 3. random long sequences over the whole pool, checked after every call
-    for n in range(60 if ctx.quick else 1500):
+    for n in range(60 if ctx.quick else 600):
         length = rng.randrange(10, 60)
         # a bias towards a few keys makes removals hit registrations
         sub = rng.sample(full, rng.randrange(8, 40))
@@ -720,11 +740,12 @@ def run(ctx):
     for n in range(1500 if ctx.quick else 60000):
         ops = tuple(with_form(rng, rng.choice(full)) for _ in range(3))
         runner.run(ops, "full3", False, None, True,
-                   do_probe=rng.random() < (0.2 if ctx.quick else 0.5))
+                   do_probe=rng.random() < (0.2 if ctx.quick else 0.5),
+                   coq=ctx.quick or rng.random() < 0.5)
     t3 = time.time()
 
     # 4. hostile stream
-    for n in range(150 if ctx.quick else 4000):
+    for n in range(150 if ctx.quick else 1500):
         length = rng.randrange(3, 30)
         ops = tuple(hostile_op(rng) if rng.random() < 0.7
                     else with_form(rng, rng.choice(full))
@@ -732,6 +753,7 @@ def run(ctx):
         runner.run(ops, "hostile", True, None, True)
     t4 = time.time()
 
+    rng.shuffle(runner.cases)        # spread the long cases over the shards
     ctx.correspondence("registry", IMPORTS, runner.cases,
                        lambda p: {"family": p[0],
                                   "calls": [list(o) for o in p[1]]})
